@@ -1428,6 +1428,12 @@ class Terms:
                 at = tuple(self.operand(a, aw[0].call_bb, "t", depth) for a in c["args"])
                 return ("agg", "core::task::poll::Poll", "Ready", (("0", ("await", self.call_name(c), at, aw[0].call_bb)),))
             return ("agg", "core::task::poll::Poll", "Ready", (("0", ("await_unknown", bb)),))
+        if getattr(self, "conversions", False) and callee in ("core::convert::Into::into", "core::convert::From::from") and len(args) == 1:
+            # opt-in: a conversion implemented in the workspace is a function like any other (Bytes -> String is an
+            # encoding, not an identity); std's own conversions stay transparent
+            cb = self._conversion_body(t)
+            if cb is not None:
+                return ("call", cb.path, (self.operand(args[0], bb, "t", depth),), bb)
         for n in names:
             if n in PASS_THROUGH:
                 return self.operand(args[PASS_THROUGH[n]], bb, "t", depth)
@@ -1445,6 +1451,23 @@ class Terms:
                 return d
         at = tuple(self.operand(a, bb, "t", depth) for a in args)
         return ("call", self.call_name(t), at, bb)
+
+    def _conversion_body(self, t):
+        """the workspace body implementing this `from` / `into` call, if there is one"""
+        r = t.get("resolved")
+        if r and r in self.p.bodies:
+            return self.p.bodies[r]
+        ga = t.get("gargs") or []
+        if (t.get("callee") or "") == "core::convert::Into::into" and len(ga) == 2:
+            src, dst = ga[0].strip(), ga[1].strip()
+            for cand in ("<%s as core::convert::From<%s>>::from" % (dst, src),):
+                if cand in self.p.bodies:
+                    return self.p.bodies[cand]
+            suffix = "<impl core::convert::From<%s> for %s>::from" % (src, dst)
+            hits = [b for path, b in self.p.bodies.items() if path.endswith(suffix)]
+            if len(hits) == 1:
+                return hits[0]
+        return None
 
     def call_name(self, t):
         """workspace callees by their resolved body path; everything else by the declared item
